@@ -31,6 +31,7 @@ func (t *fnTrans) instr(in ssa.Instruction) {
 	case *ssa.Store:
 		p := t.pathOf(in.Addr)
 		t.nilCheck(p, in.Pos(), "store")
+		t.lockDiscipline(p, true, in.Pos())
 		t.storePath(p, t.term(t.val(in.Val)))
 	case *ssa.UnOp:
 		t.unop(in)
@@ -327,6 +328,9 @@ func (t *fnTrans) unop(in *ssa.UnOp) {
 	case token.MUL:
 		p := t.pathOf(in.X)
 		t.nilCheck(p, in.Pos(), "load")
+		if t.eng.lockDiscReads {
+			t.lockDiscipline(p, false, in.Pos())
+		}
 		v, _ := t.loadPath(t.cur, p)
 		r := t.defineReg(in, v)
 		if p.Cell == "" {
@@ -520,7 +524,62 @@ func (t *fnTrans) sliceInstr(in *ssa.Slice) {
 	}
 }
 
+// lockDiscipline: monitor reasoning is sound only if every writer of a guarded field holds the mutex. A store to a
+// field guarded by a lock item (directly, or an update / delete of the map stored in it) is an obligation: the
+// executing function holds that mutex of that object in write mode, or it allocated the object itself (construction,
+// before publication). Enabled with NSQVC_LOCKDISC=1 (see DESIGN.md).
+func (t *fnTrans) lockDiscipline(p *Path, write bool, pos token.Pos) {
+	if !t.eng.lockDisc || p == nil || p.Ref == "" || p.ArrOf != "" || len(p.Sels) == 0 || p.Sels[0].Index != "" || p.Sels[0].Struct == nil {
+		return
+	}
+	n, ok := types.Unalias(p.Typ).(*types.Named)
+	if !ok || n.Obj().Pkg() == nil {
+		return
+	}
+	fname := p.Sels[0].Struct.Field(p.Sels[0].Field).Name()
+	for _, l := range t.eng.contracts.Locks {
+		if l.Type != n.Obj().Name() || l.Pkg != n.Obj().Pkg().Path() {
+			continue
+		}
+		guarded := false
+		for _, g := range l.Guards {
+			if g == fname {
+				guarded = true
+			}
+		}
+		if !guarded {
+			continue
+		}
+		lm := t.lockModeVar(l.Type, l.Field)
+		mode := fmt.Sprintf("(select %s %s)", t.get(t.cur, lm.Name), p.Ref)
+		held := fmt.Sprintf("(>= %s 1)", mode)
+		what := "read"
+		if write {
+			held = fmt.Sprintf("(= %s 2)", mode)
+			what = "written"
+		}
+		cond := fmt.Sprintf("(or %s (> %s %s))", held, p.Ref, t.get(t.entrySt, "alloc"))
+		t.oblige("lockdisc", l.Type+"."+l.Field+"."+fname, fmt.Sprintf("field %s.%s is guarded by %s.%s: it is %s only while that mutex is held (or on an object this function allocated)", l.Type, fname, l.Type, l.Field, what), cond, pos)
+	}
+}
+
+// guardedFieldOf: the location a map value was loaded from, when it is a direct load of a struct field.
+func (t *fnTrans) guardedFieldOf(m ssa.Value) *Path {
+	ld, ok := m.(*ssa.UnOp)
+	if !ok || ld.Op != token.MUL {
+		return nil
+	}
+	if _, ok := ld.X.(*ssa.FieldAddr); !ok {
+		return nil
+	}
+	if v, ok := t.vals[ld.X]; ok && v.P != nil {
+		return v.P
+	}
+	return nil
+}
+
 func (t *fnTrans) mapUpdate(in *ssa.MapUpdate) {
+	t.lockDiscipline(t.guardedFieldOf(in.Map), true, in.Pos())
 	mt := in.Map.Type().Underlying().(*types.Map)
 	md, mv, ml := t.mapVars(mt)
 	m := t.term(t.val(in.Map))
